@@ -418,8 +418,10 @@ func (w *World) runProto() {
 	}
 	force := w.planForce()
 	forceAt := map[int]int{} // node -> number of own calls after which the force happens
-	for i := range force {
-		forceAt[i] = 1 + w.c.Choose(12, "force.at")
+	for i := 0; i < w.n; i++ { // never iterate a map where order reaches the choice stream or the event log
+		if _, ok := force[i]; ok {
+			forceAt[i] = 1 + w.c.Choose(12, "force.at")
+		}
 	}
 	steps := 0
 	for {
@@ -434,7 +436,8 @@ func (w *World) runProto() {
 			}
 		}
 		// external ForceDisqualify
-		for i, tg := range force {
+		for i := 0; i < w.n; i++ {
+			tg := force[i]
 			n := w.nodes[i]
 			if n.started && !n.ended && len(tg) > 0 && (n.calls >= forceAt[i] || n.round == 3) {
 				for _, t := range tg {
